@@ -304,6 +304,12 @@ func runC19(c *c19Case) *c19Obs {
 			if conn != nil {
 				_, _ = conn.Server.Write([]byte("{\"id\":\"" + sc.ID() + "\",\"from\":\"postmaster@srv.example/s1\",\"state\":\"negotiating\"}\n"))
 			}
+		case "repeat-established":
+			// the server says established once more on the established session (no session envelope but finished / failed has a
+			// place there): whatever the client makes of it, it must not stay deaf on that connection
+			if conn != nil {
+				_, _ = conn.Server.Write([]byte("{\"id\":\"" + sc.ID() + "\",\"from\":\"postmaster@srv.example/s1\",\"to\":\"alice@cli.example/home\",\"state\":\"established\"}\n"))
+			}
 		}
 		fcancel()
 		bg.Wait()
@@ -464,7 +470,7 @@ func judgeC19(c *c19Case, obs *c19Obs, o *Outcome) {
 	}
 }
 
-var c19Faults = []string{"server-finish", "server-fail", "cut", "eof", "half-close", "garbage", "non-envelope", "oversized", "regress-session", "refuse"}
+var c19Faults = []string{"server-finish", "server-fail", "cut", "eof", "half-close", "garbage", "non-envelope", "oversized", "regress-session", "repeat-established", "refuse"}
 
 func c19Watchdog(rec *Recorder, stop chan struct{}) {
 	// real time, outside any bubble: a spinning library goroutine freezes the bubble's fake clock
